@@ -1,5 +1,6 @@
 INIT Init
 NEXT Next
 INVARIANT Emit
+INVARIANT EmitZ
 CONSTANT Stride = 1
 CHECK_DEADLOCK FALSE
